@@ -114,7 +114,12 @@ def make_hook(sx, log, bad):
             sx.reach(site)
         if dev.clf is not None and lock_replaced(dev.clf):
             labels.append("frontend-lock-replaced:" + entry)
-        if getattr(dev, "lock_owner", None) == "other":
+        if getattr(dev, "helper_thread", False) and not locked:
+            # a thread the frontend started itself drives the device without
+            # having taken the lock (the lock may well be held - by the thread
+            # whose driver call is in progress)
+            labels.append("driver-call-by-helper-thread-without-lock:%s@%s" % (method, entry))
+        elif getattr(dev, "lock_owner", None) == "other":
             # the lock is held, but by somebody else: two threads in the driver
             labels.append("driver-call-while-lock-held-by-other-thread:%s@%s"
                           % (method, entry))
@@ -131,8 +136,20 @@ def make_hook(sx, log, bad):
 
 
 def run(sx, scn, **params):
+    from env.recdevice import install_helper_threads, remove_helper_threads
     log, bad = [], []
-    getattr(C, scn)(sx, mode="lock", hook=make_hook(sx, log, bad), **params)
+    helpers = install_helper_threads()
+    try:
+        getattr(C, scn)(sx, mode="lock", hook=make_hook(sx, log, bad), **params)
+        # helper threads that were started and not cancelled run now at the
+        # latest (nobody holds the lock any more)
+        if bad_clf[0] is not None and helpers.pending:
+            dev = bad_clf[0].device
+            helpers.fire(dev, "after-scenario")
+    finally:
+        remove_helper_threads()
+    if helpers.fired:
+        sx.reach("helper-thread-ran")
     sx.reach("entry:" + scn)
     clf, entry = bad_clf
     if clf is not None and lock_replaced(clf):
